@@ -244,6 +244,20 @@ def check(ix, rep):
     _units.check_transformer(ix, rep, 'rtamt.semantics.dense_time_interpreter', 'DenseTimeInterpreter', 'dense')
     nr = _units.check_forwarding_reach(ix, rep)
     rep.floor('interpreters a sampling setting has to reach', nr, 2)
+    # a conversion that remembers its answers: the key determines the bounds, and a change of the period forgets them (R-CACHE; no memo today)
+    from sa.rules import memo
+    if not memo.self_test():
+        raise AnalysisError('R-CACHE self-test: the memo idiom is not recognised')
+    for (mod_, cls_) in (('rtamt.semantics.discrete_time_interpreter', 'DiscreteTimeInterpreter'), ('rtamt.semantics.dense_time_interpreter', 'DenseTimeInterpreter')):
+        k_ = ix.find_class(mod_, cls_)
+        f_ = k_.methods.get('time_unit_transformer') if k_ is not None else None
+        if f_ is not None:
+            memo.check_method(ix, rep, k_, f_, 'converter')
+    # a settled value is a function of the data: no handler may write into the lists it was handed: neither may write into what it was handed (an operand overwritten in place is read changed by
+    # the next operator of the same formula)
+    from sa.rules import ownrule as _own
+    _nown = _own.run(ix, rep)
+    rep.floor('functions in the ownership analysis', _nown, 250)
     explanation = __doc__.split('\n\n', 1)[1].strip().replace('\n', ' ')
     assumptions = ['hand lemma: composition of footprints along the nesting of a formula (sum of the reaches of nested future operators = the horizon of the property)',
                    'dense time: decided as "the hold-to-infinity of the last sample cannot reach the settled region" (merge kernel contract, forward scans, influence intervals of the sliding-window kernels); the stack invariant of the kernels is a hand lemma (C04)',
